@@ -133,6 +133,12 @@ func parseBackupFile(path string) ([]model.Pair, error) {
 }
 
 func (r *run) leaderTableIDs() map[string]uint64 {
+	// the catalogue is read locally on a node: let every metadata replica apply what is committed first,
+	// so that this observation is not a stale one
+	r.w.u.CatchUp("L", 1000, 0, 0)
+	for id := uint64(1); id <= 3; id++ {
+		r.w.u.CatchUp("L", 1000, id, 0)
+	}
 	r.refreshLeaderTables()
 	out := map[string]uint64{}
 	for k, v := range r.leaderTables {
